@@ -21,6 +21,12 @@ func Trim(ctx context.Context, namespace string) ([]string, error) {
 		return nil, err
 	}
 
+	// Without this every early return below leaks the transaction: its
+	// connection is never closed and, with cache=shared, keeps its table locks,
+	// so a later Write to the same table waits forever. Rollback after a
+	// successful Commit is a no-op.
+	defer tx.Rollback()
+
 	rows, err := tx.QueryContext(ctx, fmt.Sprintf(sqlTrimRead, namespace))
 	if err != nil {
 		return nil, err
